@@ -91,13 +91,13 @@ def name_class(names):
     return sorted(set(c))
 
 
-def judge_N(res, rnames, rtree, filters, merged, draw):
+def judge_N(res, rnames, rtree, filters, merged, draw, style="min"):
     """filters: list of (names, tree); all apply (rules: any, log source covered)"""
     from sigma.exceptions import SigmaError
 
-    rdoc = rule_doc(rnames, RR.condition_text(rtree))
-    fdocs = [filter_doc(fn, RR.condition_text(ft), n=i + 1) for i, (fn, ft) in enumerate(filters)]
-    case = {"sub": "N", "rule": rdoc, "filters": fdocs, "merged": merged, "draw": draw}
+    rdoc = rule_doc(rnames, RR.condition_text(rtree, style))
+    fdocs = [filter_doc(fn, RR.condition_text(ft, style), n=i + 1) for i, (fn, ft) in enumerate(filters)]
+    case = {"sub": "N", "rule": rdoc, "filters": fdocs, "merged": merged, "draw": draw, "style": style}
     res["evaluations"] += 1
     res["nontrivial"].add(h64(case))
     for fn, ft in filters:
@@ -239,9 +239,13 @@ def space_N(tier):
         rtrees = trees_for(rn, RSEL, ops)
         for fn in FNAMES:
             ftrees = trees_for(fn, FSEL, ops)
-            for rt in rtrees:
+            hazard_only = tier == "quick" and fn in FNAMES[4:]  # name-hazard sets: full filter trees, few rule trees
+            for rt in (rtrees[: len(rn) + 3] if hazard_only else rtrees):
                 for ft in ftrees:
                     yield rn, rt, [(fn, ft)], False, 0
+                    if rn is RNAMES[0] and fn is FNAMES[0] and (T.count_ops(rt) or T.count_ops(ft)):
+                        for style in ("args", "full"):
+                            yield rn, rt, [(fn, ft)], False, 0, style
             # merged path / other draws on a reduced set of trees
             for rt in rtrees[: len(rn) + 2]:
                 for ft in ftrees:
@@ -265,9 +269,11 @@ def run_shard(shard, tier, seed):
     res = new_result()
     sub, idx = shard
     if sub == "N":
-        for n, (rn, rt, filters, merged, draw) in enumerate(space_N(tier)):
+        for n, item in enumerate(space_N(tier)):
+            rn, rt, filters, merged, draw = item[:5]
+            style = item[5] if len(item) > 5 else "min"
             if n % NSH == idx:
-                judge_N(res, rn, rt, filters, merged, draw if draw == "collide" else draw + seed)
+                judge_N(res, rn, rt, filters, merged, draw if draw == "collide" else draw + seed, style)
                 if len(res["samples"]) < 1 and len(filters) == 2:
                     res["samples"].append({"rule_condition": RR.condition_text(rt), "filter_conditions": [RR.condition_text(ft) for _, ft in filters], "filter_names": [fn for fn, _ in filters]})
     elif sub == "L":
@@ -292,16 +298,17 @@ def replay(case):
     if case["sub"] == "N":
         rd = case["rule"]
         rn = [n for n in rd["detection"] if n != "condition"]
+        style = case.get("style", "min")
         def find(names, sels, text):
             for t in trees_for(names, sels, 2):
-                if RR.condition_text(t) == text:
+                if RR.condition_text(t, style) == text:
                     return t
         rt = find(rn, RSEL, rd["detection"]["condition"])
         filters = []
         for fd in case["filters"]:
             fn = [n for n in fd["filter"] if n not in ("condition", "rules")]
             filters.append((fn, find(fn, FSEL, fd["filter"]["condition"])))
-        judge_N(res, rn, rt, filters, case["merged"], case["draw"])
+        judge_N(res, rn, rt, filters, case["merged"], case["draw"], style)
     else:
         r = run_shard((case["sub"], 0), "quick", 0)
         return [v for v in r["violations"] if v["case"].get("label") == case.get("label")]
